@@ -53,6 +53,37 @@ pub enum Item<'a> {
     TupleT(v2::Type, &'a [u8]),
     Section(v2::TypeLengthValues<'a>),
     Type(v2::Type),
+    Custom(Custom<'a>),
+}
+
+/// A caller-defined payload type (see `spec::build::Val::Custom`).
+pub struct Custom<'a> {
+    pub bytes: &'a [u8],
+    pub mode: u8,
+}
+
+impl<'a> WriteToHeader for Custom<'a> {
+    fn write_to(&self, w: &mut Writer) -> io::Result<usize> {
+        use std::io::Write;
+        match self.mode {
+            1 => w.write_all(self.bytes).map(|_| 0),
+            2 => w.write_all(self.bytes).map(|_| self.bytes.len() + 7),
+            3 => {
+                let mut calls = 0;
+                for b in self.bytes {
+                    w.write_all(std::slice::from_ref(b))?;
+                    calls += 1;
+                }
+                Ok(calls / 2)
+            }
+            4 => {
+                let (a, b) = self.bytes.split_at(self.bytes.len() / 2);
+                w.write_all(a)?;
+                w.write(b)
+            }
+            _ => w.write_all(self.bytes).map(|_| self.bytes.len()),
+        }
+    }
 }
 
 impl<'a> WriteToHeader for Item<'a> {
@@ -77,6 +108,7 @@ impl<'a> WriteToHeader for Item<'a> {
             Item::TupleT(k, b) => (*k, *b).write_to(w),
             Item::Section(s) => s.write_to(w),
             Item::Type(t) => t.write_to(w),
+            Item::Custom(c) => c.write_to(w),
         }
     }
 }
@@ -84,7 +116,7 @@ impl<'a> WriteToHeader for Item<'a> {
 /// Materialised payload bytes of a value (empty for values without a blob).
 pub fn blob_bytes(v: &Val) -> Vec<u8> {
     match v {
-        Val::Bytes(b) | Val::TlvStruct(_, b) | Val::TlvOwned(_, b) | Val::TlvTuple(_, b) | Val::TlvTupleType(_, b) | Val::Section(b) | Val::SectionAdv(b, _) => b.bytes(),
+        Val::Custom(b, _) | Val::Bytes(b) | Val::TlvStruct(_, b) | Val::TlvOwned(_, b) | Val::TlvTuple(_, b) | Val::TlvTupleType(_, b) | Val::Section(b) | Val::SectionAdv(b, _) => b.bytes(),
         _ => Vec::new(),
     }
 }
@@ -112,6 +144,7 @@ pub fn item<'a>(v: &Val, bytes: &'a [u8]) -> Item<'a> {
         Val::Section(_) => Item::Section(v2::TypeLengthValues::from(bytes)),
         Val::SectionAdv(_, k) => Item::Section(advanced(bytes, *k)),
         Val::Type(t) => Item::Type(TYPES[*t]),
+        Val::Custom(_, m) => Item::Custom(Custom { bytes, mode: *m }),
     }
 }
 
@@ -149,6 +182,7 @@ fn write_val(b: Builder, v: &Val) -> io::Result<Builder> {
         Val::Section(_) => b.write_payload(v2::TypeLengthValues::from(bytes.as_slice())),
         Val::SectionAdv(_, k) => b.write_payload(advanced(bytes.as_slice(), *k)),
         Val::Type(t) => b.write_payload(TYPES[*t]),
+        Val::Custom(_, m) => b.write_payload(Custom { bytes: bytes.as_slice(), mode: *m }),
     }
 }
 
